@@ -25,7 +25,7 @@ def run(ck: Check) -> None:
     d = impl.scratch_dir()
     pkg = os.path.dirname(impl.common.__file__)
     ck.correspondences.add("corr:in-place-signing/open-sequence+file-bytes")
-    ndocs = 40 if ck.thorough else 8
+    ndocs = ck.n(40, 8)
     lines, expect_opens = [], []
     total_points = 0
     for di in range(ndocs):
@@ -221,7 +221,7 @@ def run(ck: Check) -> None:
     k = gen.key(2)
     fpr = gpgshim.register(k)
     mfn = os.path.join(d, "c18-md.json")
-    for mi in range(6 if ck.thorough else 2):
+    for mi in range(ck.n(6, 2)):
         md = gen.envelope(gen.root_md([k], 1, [gen.key(3)], 1, version=mi + 1))
         if mi % 2:
             gen.sign_env(md, [gen.key(4)], True)
